@@ -8,7 +8,8 @@ B == Atom("b")
 Vals == {A, B}
 Pages == {<<>>} \cup {<<<<x, y>>>> : x \in Vals, y \in Vals}
          \cup (IF Small THEN {<<<<A, B>>, <<B, A>>>>, <<<<B, A>>, <<A, B>>>>} ELSE {<<<<x, y>>, <<u, v>>>> : x \in Vals, y \in Vals, u \in Vals, v \in {A}})
-Headers == {<<>>, <<<<A, A, A>>>>, <<<<B, A, A>>>>}
+Z == NatT(0)     \* a zero-size continuous page is still a declared page
+Headers == {<<>>, <<<<A, A, A>>>>, <<<<B, A, A>>>>, <<<<A, Z, A>>>>}
 PIs == [logSteps : {A}, rcMin : {A}, rcMax : Vals, layout : {A}, dyn : {<<>>, <<A>>}, segs : {<<<<A, A>>>>, <<<<A, B>>>>},
         padAddr : Vals, padVal : {A}, page : Pages, headers : Headers]
 VARIABLES p1, p2, n1, n2
